@@ -175,16 +175,22 @@ parsec_arena_release_chunk(parsec_arena_t* arena,
 {
     TRACE_FREE(arena_memory_unused_key, -arena->elem_size*chunk->count, chunk);
 
-    if( (chunk->count == 1) && (arena->released < arena->max_released) ) {
+    int cache_it = (chunk->count == 1);
+    if( cache_it && (arena->max_released != INT32_MAX) ) {
+        /* reserve the cache slot in one atomic step: testing released < max_released and
+         * incrementing it separately lets concurrent releases all pass the test */
+        if( parsec_atomic_fetch_inc_int32(&arena->released) >= arena->max_released ) {
+            (void)parsec_atomic_fetch_dec_int32(&arena->released);
+            cache_it = 0;
+        }
+    }
+    if( cache_it ) {
         PARSEC_DEBUG_VERBOSE(10, parsec_debug_output, "Arena:\tpush a data of size %zu from arena %p, aligned by %zu, base ptr %p, data ptr %p, sizeof prefix %zu(%zd)",
                 arena->elem_size, arena, arena->alignment, chunk, chunk->data, sizeof(parsec_arena_chunk_t),
                 PARSEC_ARENA_MIN_ALIGNMENT(arena->alignment));
 #if defined(PARSEC_VERIF)
         PARSEC_VERIF_YIELD(PARSEC_VERIF_SITE_ARENA);
 #endif
-        if(arena->max_released != INT32_MAX) {
-            (void)parsec_atomic_fetch_inc_int32(&arena->released);
-        }
         parsec_lifo_push(&arena->area_lifo, &chunk->item);
         return;
     }
